@@ -725,6 +725,8 @@ let do_listen id ins outs =
 let do_race id ins outs =
   match outs with
   | ["none"] -> verdict "race" id "ok" "stress/none" ""
+  | ["crash"; what; fr] -> verdict "race" id "spec:C15,C02,C01" "stress/crash"
+      (Printf.sprintf "the daemon code aborted the process under concurrent load: %s in %s" (string_of_bytes (bytes_of_token what)) fr)
   | [fr; n] -> verdict "race" id "spec:C15" "stress/race" (Printf.sprintf "go race detector: %s reports between %s" n fr)
   | _ -> verdict "race" id "diff" "malformed-line" ""
 
